@@ -1,11 +1,15 @@
 (* C05 — Operations through Client and Server behave like package os.
    What is proved here is the part of the property that is pure logic of pkg/sftp: outcome categories survive the wire,
    paths reach package os as the working-directory rule says, and each request type is mapped onto the os call the
-   table names. That the served TREE then evolves like os's is not a theorem (package os and the kernel are outside the
-   repository): it is decided on every run by the differential oracle of family c05 against package os itself. *)
+   table names; and, on a name-space model of the served tree (Fs/Tree.v), the client's COMPOSITE operations - Remove with its
+   RMDIR fallback, MkdirAll, RemoveAll - do to the tree exactly what os.Remove, os.MkdirAll and os.RemoveAll do (refinement,
+   every tree, every path, wherever the kernel would not have to follow a symbolic link). That the model's primitives are
+   what package os and the kernel do is not a theorem (they are outside the repository): it is decided on every run by the
+   differential oracle of family c05 against package os itself, and by kind fsspec (the model's specifications against
+   package os on the same trees). *)
 From Coq Require Import List NArith Bool Strings.Byte.
 From Sftp Require Import Base.GoSem Wire.Prim Wire.Packets Path.Clean Err.Status Srv.ReadOnly Srv.OpenFlags
-                         Proofs.CleanP Proofs.StatusP Proofs.OpenFlagsP.
+                         Proofs.CleanP Proofs.StatusP Proofs.OpenFlagsP Fs.Tree Proofs.TreeP.
 Import ListNotations.
 Open Scope N_scope.
 
@@ -52,7 +56,80 @@ Theorem C05_openfile_flags_survive : forall f, open_osflags (toPflags f) = serve
 Proof. exact openfile_flags_survive. Qed.
 Print Assumptions C05_openfile_flags_survive.
 
+(* ===== the client's composite operations on a model of the served tree (Fs/Tree.v) =====
+   Entries are directories, files and symbolic links under paths of components below the served root; `wf`: every path once
+   and the parent of every entry is a directory. Server primitives as the os-backed server maps them: REMOVE and RMDIR are
+   both os.Remove (p_remove), MKDIR os.Mkdir (p_mkdir), STAT / LSTAT the kernel's path walk (stat / lstat), READDIR the
+   children. None = the kernel would have to follow a symbolic link: not modelled. *)
+
+(* Client.Remove (REMOVE, then RMDIR if that fails) is os.Remove: the fallback repeats the same call on the same tree *)
+Theorem C05_remove_is_os_remove : forall t p, FsTree.c_remove t p = FsTree.p_remove t p.
+Proof. exact FsTreeP.c_remove_is_os_remove. Qed.
+Print Assumptions C05_remove_is_os_remove.
+
+(* Client.RemoveDirectory: the server answers RMDIR with os.Remove too; that is rmdir(2) exactly when the path is a directory -
+   a file or a link is removed where rmdir(2) refuses (finding F17, known) *)
+Theorem C05_rmdir_agrees_on_dirs : forall t p k, FsTree.lstat t p = FsTree.LKind k ->
+  (k = FsTree.KDir <-> FsTree.p_remove t p = FsTree.p_rmdir t p) \/ p = [].
+Proof. exact FsTreeP.rmdir_agrees_on_dirs. Qed.
+Print Assumptions C05_rmdir_agrees_on_dirs.
+
+Theorem C05_rmdir_on_a_file_refuted :
+  exists t p, FsTree.wf t /\ FsTree.p_remove t p = Some (FsTree.TOk, []) /\ FsTree.p_rmdir t p = Some (FsTree.TOther, t).
+Proof. exact FsTreeP.rmdir_on_a_file_refuted. Qed.
+Print Assumptions C05_rmdir_on_a_file_refuted.
+
+(* Client.MkdirAll (Stat, recursion on the parent, Mkdir, Lstat re-check) returns what os.MkdirAll returns and leaves the tree
+   os.MkdirAll leaves - for every well-formed tree and every path, whenever the specification is defined *)
+Theorem C05_mkdirall_refines : forall t p r, FsTree.wf t -> FsTree.spec_mkdirall t p = Some r ->
+  FsTree.c_mkdirall (S (length p)) t p = Some r.
+Proof. exact FsTreeP.mkdirall_refines. Qed.
+Print Assumptions C05_mkdirall_refines.
+
+(* ... and what that is: on success the path is a directory, nothing that was there is touched, everything new is a
+   directory on the way to the path; a failure changes nothing *)
+Theorem C05_mkdirall_post : forall t p c t1, FsTree.wf t -> FsTree.spec_mkdirall t p = Some (c, t1) ->
+  (c = FsTree.TOk -> FsTree.wf t1 /\ FsTree.kind_at t1 p = Some FsTree.KDir /\ (forall x k, In (x, k) t -> In (x, k) t1) /\
+              (forall x k, In (x, k) t1 -> In (x, k) t \/ (FsTree.under x p = true /\ k = FsTree.KDir))) /\
+  (c <> FsTree.TOk -> t1 = t).
+Proof. exact FsTreeP.spec_mkdirall_post. Qed.
+Print Assumptions C05_mkdirall_post.
+
+(* Client.RemoveAll (Lstat, ReadDir, RemoveAll on sub-directories and Remove on everything else, Remove of the path) removes
+   exactly the sub-tree, as os.RemoveAll does, for every well-formed tree of any depth and width; a missing path is an error
+   (the documented difference from os.RemoveAll) *)
+Theorem C05_removeall_refines : forall fuel t p r, FsTree.wf t -> (FsTreeP.cnt t p < fuel)%nat ->
+  FsTree.spec_removeall t p = Some r -> FsTree.c_removeall fuel t p = Some r.
+Proof. exact FsTreeP.removeall_refines. Qed.
+Print Assumptions C05_removeall_refines.
+
+Theorem C05_removeall_post : forall t p t1, FsTree.wf t -> FsTree.spec_removeall t p = Some (FsTree.TOk, t1) ->
+  FsTree.wf t1 /\ (forall x k, In (x, k) t1 <-> In (x, k) t /\ FsTree.under p x = false).
+Proof. exact FsTreeP.spec_removeall_post. Qed.
+Print Assumptions C05_removeall_post.
+
+(* ANY sequence of the modelled operations (Mkdir, Remove, RemoveDirectory, MkdirAll, RemoveAll), started on a well-formed tree:
+   every tree on the way is well formed, and the Client's way of doing them produces the outcomes and the tree that package
+   os's operations produce, step for step - as long as no step has to follow a symbolic link *)
+Theorem C05_sequences_stay_well_formed : forall ops t cs t', FsTree.wf t ->
+  FsTreeP.run_ops FsTreeP.os_op t ops = Some (cs, t') -> FsTree.wf t'.
+Proof. exact FsTreeP.run_ops_wf. Qed.
+Print Assumptions C05_sequences_stay_well_formed.
+
+Theorem C05_client_sequences_refine_os : forall ops t r, FsTree.wf t ->
+  FsTreeP.run_ops FsTreeP.os_op t ops = Some r -> FsTreeP.run_ops FsTreeP.client_op t ops = Some r.
+Proof. exact FsTreeP.client_sequences_refine_os. Qed.
+Print Assumptions C05_client_sequences_refine_os.
+
 Example C05_nonvacuous :
   to_local_path [x2f; x77]%byte [x61; x2f; x2e; x2e; x2f; x62]%byte = [x2f; x77; x2f; x62]%byte /\
   status_code true WLink (BErrno 1) = 3 /\ normalise 3 = CPermission.
+Proof. vm_compute. repeat split; reflexivity. Qed.
+
+Example C05_tree_nonvacuous :
+  let t := [([1], FsTree.KDir); ([1; 2], FsTree.KDir); ([1; 2; 3], FsTree.KFile); ([1; 4], FsTree.KLink); ([5], FsTree.KFile)]%nat in
+  FsTree.c_mkdirall 4 t [1; 6; 7]%nat = Some (FsTree.TOk, t ++ [([1; 6], FsTree.KDir); ([1; 6; 7], FsTree.KDir)])%nat /\
+  FsTree.c_mkdirall 3 t [5; 1]%nat = Some (FsTree.TOther, t) /\
+  FsTree.c_removeall 6 t [1]%nat = Some (FsTree.TOk, [([5], FsTree.KFile)])%nat /\
+  FsTree.c_removeall 6 t [1; 4; 2]%nat = None.
 Proof. vm_compute. repeat split; reflexivity. Qed.
